@@ -473,6 +473,166 @@ func main() {
 		c.emit("\n/-- bit width of the static type of `headerInfoSize := <size field> * 4` in ttheader.Decode -/\ndef ttHeaderSizeBits : Nat := %d\n", bits)
 	}
 
+	// width of the operand compared against MaxHeaderSize in ttheader.Encode (F14)
+	{
+		bits := 0
+		if fd, pk := c.findFunc("protocol/ttheader", "", "Encode"); fd != nil {
+			ast.Inspect(fd, func(nd ast.Node) bool {
+				is, ok := nd.(*ast.IfStmt)
+				if !ok {
+					return true
+				}
+				be, ok := is.Cond.(*ast.BinaryExpr)
+				if !ok || be.Op != token.GTR {
+					return true
+				}
+				mentions := false
+				ast.Inspect(be.Y, func(n ast.Node) bool {
+					if id, ok := n.(*ast.Ident); ok && id.Name == "MaxHeaderSize" {
+						mentions = true
+					}
+					return true
+				})
+				if !mentions {
+					return true
+				}
+				if b, _, ok := bitsOf(pk.TypesInfo.Types[be.X].Type); ok {
+					bits = b
+				}
+				return true
+			})
+		}
+		if bits == 0 {
+			c.miss = append(c.miss, "ttheader.Encode size check")
+		}
+		c.emit("\n/-- bit width of the static type of the value compared against MaxHeaderSize in ttheader.Encode -/\ndef ttEncodeSizeCheckBits : Nat := %d\n", bits)
+	}
+
+	// ApplicationException.FastRead: the (id, type) conditions of its switch, in order
+	{
+		var pairs []string
+		if fd, pk := c.findFunc("protocol/thrift", "ApplicationException", "FastRead"); fd != nil {
+			ast.Inspect(fd, func(nd ast.Node) bool {
+				cc, ok := nd.(*ast.CaseClause)
+				if !ok {
+					return true
+				}
+				for _, e := range cc.List {
+					and, ok := e.(*ast.BinaryExpr)
+					if !ok || and.Op != token.LAND {
+						continue
+					}
+					var id, tp int64 = -1, -1
+					for _, side := range []ast.Expr{and.X, and.Y} {
+						eq, ok := side.(*ast.BinaryExpr)
+						if !ok || eq.Op != token.EQL {
+							continue
+						}
+						lhs, _ := eq.X.(*ast.Ident)
+						v, okv := constInt(pk, eq.Y)
+						if lhs == nil || !okv {
+							continue
+						}
+						if lhs.Name == "id" {
+							id = v
+						} else if lhs.Name == "tp" {
+							tp = v
+						}
+					}
+					if id >= 0 && tp >= 0 {
+						pairs = append(pairs, fmt.Sprintf("(%d, %d)", id, tp))
+					}
+				}
+				return true
+			})
+		}
+		if len(pairs) == 0 {
+			c.miss = append(c.miss, "thrift.ApplicationException.FastRead cases")
+		}
+		c.emit("\n/-- (field id, type) conditions of the switch in ApplicationException.FastRead, in order -/\ndef appExcReadCases : List (Int × Int) := [%s]\n", strings.Join(pairs, ", "))
+	}
+
+	// generated writers: the (type byte, field id) headers stored by Base/BaseResp.FastWriteNocopy, in order
+	for _, st := range []string{"Base", "BaseResp"} {
+		var pairs []string
+		if fd, pk := c.findFunc("protocol/thrift/base", st, "FastWriteNocopy"); fd != nil {
+			var lastType int64 = -1
+			ast.Inspect(fd, func(nd ast.Node) bool {
+				switch x := nd.(type) {
+				case *ast.AssignStmt: // b[off] = <const>
+					if len(x.Lhs) == 1 && len(x.Rhs) == 1 {
+						if ix, ok := x.Lhs[0].(*ast.IndexExpr); ok {
+							if id, ok := ix.Index.(*ast.Ident); ok && id.Name == "off" {
+								if v, ok := constInt(pk, x.Rhs[0]); ok {
+									lastType = v
+								}
+							}
+						}
+					}
+				case *ast.CallExpr: // binary.BigEndian.PutUint16(b[off+1:], <const>)
+					if sel, ok := x.Fun.(*ast.SelectorExpr); ok && sel.Sel.Name == "PutUint16" && len(x.Args) == 2 {
+						if v, ok := constInt(pk, x.Args[1]); ok && lastType >= 0 {
+							pairs = append(pairs, fmt.Sprintf("(%d, %d)", lastType, v))
+							lastType = -1
+						}
+					}
+				}
+				return true
+			})
+		}
+		if len(pairs) == 0 {
+			c.miss = append(c.miss, "base."+st+".FastWriteNocopy headers")
+		}
+		c.emit("/-- (type byte, field id) of every field header written by %s.FastWriteNocopy, in order -/\ndef fastWriteHeaders%s : List (Int × Int) := [%s]\n", st, st, strings.Join(pairs, ", "))
+	}
+
+	// PrependError: the order of its type tests, and the fallback format of ApplicationException.Error
+	{
+		var order []string
+		if fd, _ := c.findFunc("protocol/thrift", "", "PrependError"); fd != nil {
+			ast.Inspect(fd, func(nd ast.Node) bool {
+				ta, ok := nd.(*ast.TypeAssertExpr)
+				if !ok || ta.Type == nil {
+					return true
+				}
+				var buf bytes.Buffer
+				printer.Fprint(&buf, token.NewFileSet(), ta.Type)
+				order = append(order, buf.String())
+				return true
+			})
+		}
+		if len(order) == 0 {
+			c.miss = append(c.miss, "thrift.PrependError type tests")
+		}
+		c.emit("\n/-- the types PrependError tests for, in order -/\ndef prependErrorOrder : List String := [")
+		for i, o := range order {
+			if i > 0 {
+				c.emit(", ")
+			}
+			c.emit("%s", leanStr(o))
+		}
+		c.emit("]\n")
+		format := ""
+		if fd, pk := c.findFunc("protocol/thrift", "ApplicationException", "Error"); fd != nil {
+			ast.Inspect(fd, func(nd ast.Node) bool {
+				ce, ok := nd.(*ast.CallExpr)
+				if !ok || len(ce.Args) == 0 {
+					return true
+				}
+				if sel, ok := ce.Fun.(*ast.SelectorExpr); ok && sel.Sel.Name == "Sprintf" {
+					if tv, ok := pk.TypesInfo.Types[ce.Args[0]]; ok && tv.Value != nil {
+						format = constant.StringVal(tv.Value)
+					}
+				}
+				return true
+			})
+		}
+		if format == "" {
+			c.miss = append(c.miss, "thrift.ApplicationException.Error format")
+		}
+		c.emit("/-- the fallback format of ApplicationException.Error for unknown type ids -/\ndef appExcUnknownFormat : String := %s\n", leanStr(format))
+	}
+
 	// narrow arithmetic census (informational)
 	{
 		var items []string
